@@ -5,8 +5,8 @@ Model of the multi-period code (C12, DESIGN.md §7 C12):
 * `ManifestContext.create_all_vod_periods`  (manifest_context.py:186-200)
 * `ManifestContext.create_all_live_periods` (manifest_context.py:202-243)
 * `MultiPeriodStream.total_duration`        (models/multi_period_stream.py:45-49)
-* `ServeMpsMedia.calculate_media_segment_index` (media_requests.py:544-590) and what
-  `generate_media_segment` (media_requests.py:139-213) does with its result.
+* `ServeMpsMedia.calculate_media_segment_index` (media_requests.py:554-612) and what
+  `generate_media_segment` (media_requests.py:139-220) does with its result.
 
 All times of the period builders are `datetime.timedelta`s: exact integers of
 microseconds (`Nat` here; every value is non-negative: `elapsedTime > 0`,
@@ -123,14 +123,16 @@ def mpsStartTc (startRef ts refTs : Nat) : Nat :=
 
 /-- result of the index calculation: `ok mod_segment origin_time seg_num` or `ValueError` (→ 404) -/
 inductive MpsRes
-  | ok (modSeg : Int) (origin : Int) (segNum : Option Int)
+  | ok (modSeg : Int) (origin : Int) (segNum : Int)
   | notFound
   deriving Repr, DecidableEq
 
-/-- media_requests.py:544-590, including the `fix:` commits 9437abb (a search that wrapped
-into the next loop of the media – `origin_time > 0` – is refused) and 7f6dd57 (a number
-below `start_number` is refused).  `startTc` is the period's source offset in the track's
-timescale, `R` the reference duration in that timescale. -/
+/-- media_requests.py:554-612, including the `fix:` commits 9437abb (a search that wrapped
+into the next loop of the media – `origin_time > 0` – is refused), 7f6dd57 (a number below
+`start_number` is refused) and 3d7a0df (a `$Time$` request gets the number
+`start_number + mod_seg − first_seg`, where `first_seg` is the segment the Period starts
+with, and is refused when it lies before that segment).  `startTc` is the period's source
+offset in the track's timescale, `R` the reference duration in that timescale. -/
 def mpsIndex (durs : List Nat) (R sn startTc : Nat) (rq : Req) : MpsRes :=
   let tc := match rq with
     | .time t => startTc + t
@@ -138,12 +140,15 @@ def mpsIndex (durs : List Nat) (R sn startTc : Nat) (rq : Req) : MpsRes :=
   let r := getSegmentIndex durs R tc
   if r.2.2 > 0 then .notFound
   else match rq with
-    | .time t => .ok r.1 (-(r.2.1 : Int) + t) none
+    | .time t =>
+      let first := (getSegmentIndex durs R startTc).1
+      if r.1 < first then .notFound
+      else .ok r.1 (-(r.2.1 : Int) + t) ((sn : Int) + r.1 - first)
     | .number num =>
       if num < sn then .notFound
       else
         let m : Int := (r.1 : Int) + (num - sn)
-        if m > durs.length then .notFound else .ok m (-(r.2.1 : Int)) (some num)
+        if m > durs.length then .notFound else .ok m (-(r.2.1 : Int)) num
 
 /-- what the client receives -/
 inductive Served
@@ -151,20 +156,19 @@ inductive Served
   | segment (src : Nat) (tfdt : Int) (seq : Int)
   /-- 404 -/
   | notFound
-  /-- an exception other than `ValueError` escapes: 500 -/
+  /-- an exception other than `ValueError`/`OverflowError` escapes: 500 -/
   | crash
   deriving Repr, DecidableEq
 
-/-- `generate_media_segment` (media_requests.py:165-213) applied to the index result.
-`stored k` is the `baseMediaDecodeTime` of stored segment `k` when the file has `tfdt`
-boxes; otherwise the handler synthesises `Σ durations before` (media_requests.py:195-200).
-`assert sn is not None` fails for every `$Time$` request (the index calculation returns
-`seg_num = None`); a negative decode time cannot be encoded. -/
+/-- `generate_media_segment` (media_requests.py:170-220) applied to the index result: a
+`mod_segment` outside `1..n` is refused (3d7a0df); `stored k` is the
+`baseMediaDecodeTime` of stored segment `k` when the file has `tfdt` boxes, otherwise the
+handler synthesises `Σ durations before` (media_requests.py:203-208); a negative decode
+time cannot be encoded. -/
 def mpsServe (durs : List Nat) (stored : Option (Nat → Nat)) : MpsRes → Served
   | .notFound => .notFound
-  | .ok _ _ none => .crash
-  | .ok m origin (some num) =>
-    if m < 1 then .crash
+  | .ok m origin num =>
+    if m < 1 ∨ m > durs.length then .notFound
     else
       let k := (m - 1).toNat
       let base : Nat := match stored with
